@@ -41,6 +41,12 @@ CHECKS = {
    text="The real Mat64::jacobian / Matrix::<Cmplx>::jacobian_cmplx run against a simulated user function that classifies every evaluation point against the forward stencil, answers from a script (affine-dyadic: J == M bit for bit; arbitrary table on the stencil, NaN off it; smooth with known derivative: O(delta) bound) and injects NaN/Inf at chosen stencil points or a panic at a chosen evaluation. All 36 shapes 1..6 x 1..6 (m<n, m=n, m>n), real and complex, are enumerated in every tier; the rest is seeded sampling. Oracles: shape, entries, fault containment (exactly the entries fed a non-finite value are non-finite), panic propagation.",
    design="§4.4",
    note="Trusted: the stencil classification tolerance (bitwise on dyadic data, 2 ulp otherwise); rounding tolerances on non-dyadic data; the callback is the only channel through which the routine sees the map. Order/multiplicity of evaluations is not constrained here."),
+ "C19": dict(
+   engine="simcheck (simulated disk with fault plan + reference mesh model)",
+   technique="deterministic simulation: histories of mesh operations against a reference model, with the file system behind Mesh1D::output/read replaced by a seeded fault-injecting in-memory disk (short/EINTR/failed/zero writes, short/EINTR/failed reads, refused create/open); seeded search with shrinking",
+   text="Real Mesh1D/Mesh2D code under seeded histories of 5..40 operations (set/get/Index/IndexMut, interpolation at nodes / mid-cell / interior points, 1-D and 2-D trapezium with exact and closed-form oracles, assign/apply, cross-sections that join the pool of live meshes, var_as_matrix, output and read into fresh/shorter/longer/live meshes), mirrored by a reference model and compared through every access path after every step. output/read run their real formatting, write_all, read_to_string and parsing against a simulated disk that injects transient faults (which must be absorbed: full round trip required) and hard faults (after which the call may refuse by panicking; flagged are acknowledged-but-wrong files, reads that return wrong data, a changed writer). Seeded sampling of histories and fault placements, not proof.",
+   design="§4.2",
+   note="Trusted: the in-memory disk's model of create(truncate)/write/read/close; that short transfers and EINTR are legal for successful calls; tolerances for printed precision and rounded quadrature/interpolation; crash/torn-write/bit-flip faults are deliberately not injected (the property claims no durability)."),
 }
 
 def main():
